@@ -183,9 +183,11 @@ package parser
 
 //@ func Parser.Buffer
 //@   requires r != nil && r.inputScanner != nil && !scstarted(r.inputScanner)
+//@   modifies scannercell(r.inputScanner)
+//@   ensures limit_forwarded: scmax(r.inputScanner) == maxSize && !scstarted(r.inputScanner) && scdone(r.inputScanner) == old(scdone(r.inputScanner)) && scerr(r.inputScanner) == old(scerr(r.inputScanner))
 
 //@ func New
-//@   ensures fresh_parser: result != nil && fresh(result) && fresh(result.fieldScanner) && result.inputScanner != nil && result.fieldScanner != nil && !scstarted(result.inputScanner) && !scdone(result.inputScanner)
+//@   ensures fresh_parser: result != nil && fresh(result) && fresh(result.fieldScanner) && result.inputScanner != nil && result.fieldScanner != nil && !scstarted(result.inputScanner) && !scdone(result.inputScanner) && scmax(result.inputScanner) == 0
 //@   ensures field_parser_configured: result.fieldScanner.removeBOM && !result.fieldScanner.keepComments && result.fieldScanner.err == nil && result.fieldScanner.data == "" && !result.fieldScanner.started
 
 // ---------------------------------------------------------------------------------------------------------
